@@ -1,6 +1,6 @@
 """Property -> rules table. Each rule callable: (prog, tier, repo) -> [RuleResult]."""
 from .rules import traversal_instances as TI
-from .rules import gate, lookup_unwrap, heap, witness, incremental, optimizer, const_arith, shape, backend, printer_rules, comment_linear, enum_evidence, ssa_shared, lex_bounds, gc_rules
+from .rules import gate, lookup_unwrap, heap, witness, incremental, optimizer, const_arith, shape, backend, printer_rules, comment_linear, enum_evidence, ssa_shared, lex_bounds, gc_rules, scope
 
 PROPERTIES = {}
 
@@ -41,8 +41,10 @@ prop('C02', COMMON +
      'constant folder uses the MIR operation, operand order, signedness and zero guard of the wasm opcode the wasm '
      'printer emits for the same operator (both tables read out of MIR discriminant switches). SWAP-TABLE: operand '
      'swapping <=> mirror operator, never for non-commutative operators; `x - n` -> `x + (-n)` only behind n != i32::MIN. '
+     'SCOPE-BRACKET: push_scope/pop_scope of every stacked fact context are balanced on all paths, and every recursive '
+     'descent into a nested statement list is bracketed by the same contexts as its sibling descents. '
      'Does not decide loop closed forms, LICM legality, inlining capture-avoidance or escape analysis.',
-     [const_arith.run, optimizer.run_dce_keep, optimizer.run_fold_table, optimizer.run_swap_table,
+     [const_arith.run, optimizer.run_dce_keep, optimizer.run_fold_table, optimizer.run_swap_table, scope.run_bracket,
       TI.make(['T-dce', 'T-conditional_constant_propagation', 'T-inlining', 'T-local_value_numbering',
                'T-scalar_replacement', 'T-unused_name_elimination', 'T-loop_induction_variable_elimination'])])
 
@@ -53,8 +55,10 @@ prop('C06', COMMON +
      'checking on the same ErrorSet, and nobody else calls lowering. ERRSET-SINK: every public report method '
      'unconditionally inserts into the set has_errors() tests. INT-RANGE-REPORT: zone abstract interpretation of the '
      'lexer\'s integer-literal post-processing - an integer token is produced only on paths that reported an error or '
-     'where the parsed value is proven to fit (checked per incoming path, because the join loses the disjunction).',
-     [gate.run_gate, gate.run_errset, lex_bounds.run_int_range, TI.make(['T-chk', 'T-ssa'])])
+     'where the parsed value is proven to fit (checked per incoming path, because the join loses the disjunction). '
+     'SCOPE-IFLET-ELSE: the scope analysis visits the else-branch of an if-let at the scope depth of the whole '
+     'expression (pattern bindings are not visible there).',
+     [gate.run_gate, gate.run_errset, lex_bounds.run_int_range, scope.run_iflet_else, TI.make(['T-chk', 'T-ssa'])])
 
 prop('C08', COMMON +
      'TRAVERSAL/SIBLING: the pretty-printer reads every expression, pattern, annotation, identifier and literal slot of '
@@ -93,7 +97,7 @@ prop('C15', COMMON +
      'child of every node. SSA-SHARED: the definition/uses records of the services crate are built only from the '
      'fields of the checker\'s SsaAnalysisResult, which is only obtained from perform_ssa_analysis_on_module (no second '
      'scope resolver). Does not decide capture-freedom of the new name or behavioural identity after rename.',
-     [ssa_shared.run, TI.make(['T-ren', 'T-ssa'])])
+     [ssa_shared.run, scope.run_iflet_else, TI.make(['T-ren', 'T-ssa'])])
 
 # properties whose reports on the unchanged tree are not yet triaged are not claimed
 import os as _os
